@@ -37,6 +37,7 @@ def run(ctx):
     ctx.run_rule("R3-forget-critical-section", c08.r3_forget, F)
     ctx.run_rule("R4-no-plain-store", c08.r5_who, F)
     ctx.run_rule("R5-readdir-references", c08.r2_readdir, F)
+    ctx.run_rule("R7-identity-lookup", c08.r7_identity, F)          # the probe that decides "found" vs "insert" (shared with C08)
     ctx.run_rule("R1-entry-pairing", c08.r1_entry_pairing, F)     # a reference the client never received is given back, on that inode
     ctx.assumptions += ["linearizability over all interleavings is not decided (needs schedule exploration, a different technique family)"]
 
